@@ -61,6 +61,9 @@ def mk(cls, pathkind, scale=1.0):
     elif pathkind == "rot4":
         o.move(np.array([(0.5, 0.2, 0.1), (1.0, 0.1, -0.2), (1.2, 0.8, 0.3)]) * scale)
         o.rotate_from_rotvec([(0.0, 0.3, 0.1), (0.4, 0.1, -0.3), (0.2, -0.6, 0.5)], degrees=False, start=1)
+    elif pathkind == "long11":  # longer than the number of frames an animation is allowed below: indices are downsampled
+        o.move(np.array([(0.31 * i, 0.07 * i * i, -0.11 * i) for i in range(1, 11)]) * scale)
+        o.rotate_from_rotvec([(0.05 * i, 0.3 - 0.02 * i, 0.1 * i) for i in range(1, 11)], degrees=False, start=1)
     return o
 
 
@@ -291,9 +294,11 @@ def run_case(c):
     if frames != "default":
         obj.style.path.frames = frames
     if anim:
-        kw["animation"] = anim if anim != "kwargs" else True
+        kw["animation"] = anim if anim not in ("kwargs", "downsample") else True
         if anim == "kwargs":
             kw.update(animation_fps=7, animation_time=2, animation_slider=True)
+        if anim == "downsample":  # 2 s x 3 fps = 6 frames for paths of 11 (object) and 7 (companion) steps
+            kw.update(animation_fps=3, animation_time=2)
     objs = [top] + ([extra] if extra is not None else [])
     before = snapshot_all(objs)
     try:
@@ -320,19 +325,96 @@ def run_case(c):
         problems += check_object(cls, obj, traces_of(fig.data, obj), factor, frames, scale)
     else:
         nfr = len(fig.frames)
-        if nfr != 7:
-            problems.append(f"animation-frame-count-{nfr}-expected-7")
-        for k, fr in enumerate(fig.frames):
-            L = len(obj._position)
-            pr = check_object(cls, obj, traces_of(fr.data, obj), factor, "default", scale, displayed=[min(k, L - 1)])
-            if pr:
-                problems += [f"animation-frame-{k}:{p}" for p in pr[:1]]
-                break
+        L = len(obj._position)
+        maxL = max(L, 7)
+        allowed = {True: 100, 2: 40, "kwargs": 14, "downsample": 6}[anim]   # animation_time x animation_fps (defaults 5 x 20)
+        want = min(maxL, allowed)
+        if nfr != want and not (maxL > allowed and 2 <= nfr <= allowed):
+            problems.append(f"animation-frame-count-{nfr}-expected-{want}")
+        # every frame announces (name, title) the path index it displays; the object must be drawn at that index,
+        # the first frame shows the start and the last frame the end of the longest path, indices increase
+        try:
+            inds = [int(fr.name) - 1 for fr in fig.frames]
+        except Exception:
+            inds = None
+            problems.append("animation-frame-names-not-path-indices")
+        if inds is not None:
+            if inds[0] != 0 or inds[-1] != maxL - 1 or any(b <= a for a, b in zip(inds, inds[1:])):
+                problems.append(f"animation-frame-indices-{inds}-do-not-run-from-0-to-{maxL - 1}")
+            for k, (fr, ind) in enumerate(zip(fig.frames, inds)):
+                ttl = getattr(getattr(fr.layout, "title", None), "text", None) or ""
+                if f"path index: {ind + 1}" not in ttl.replace("path index: 0", "path index: "):
+                    problems.append(f"animation-frame-title-{ttl!r}-does-not-announce-index-{ind + 1}")
+                    break
+                pr = check_object(cls, obj, traces_of(fr.data, obj), factor, "default", scale, displayed=[min(ind, L - 1)])
+                if pr:
+                    problems += [f"animation-frame-{k}:{p}" for p in pr[:1]]
+                    break
     return problems
+
+
+# ------------------------------------------------------------------ show() that fails: nothing may be modified either
+SHOW_FAULTS = ["trace_missing_coord", "trace_bad_constructor", "trace_callable_raises", "bad_backend", "bad_style_kwarg",
+               "bad_animation_output", "bad_canvas"]
+
+
+def run_fault(c):
+    import magpylib as magpy
+
+    cls, fault, pos = c["cls"], c["fault"], c["faulty_at"]
+    objs = [mk("Cuboid" if cls != "Cuboid" else "Sphere", "transl3"), mk(cls, "rot4"), mk("Sensor", "static")]
+    objs[0].style.color, objs[2].style.color = "#111111", "#222222"
+    objs = objs[-pos:] + objs[:-pos] if pos else objs        # position of the faulty object in the argument list
+    bad = [o for o in objs if type(o).__name__ == cls][-1] if cls != "Sensor" else objs[(2 + pos) % 3]
+    kw = {"backend": "plotly", "return_fig": True}
+
+    calls = {"n": 0}
+
+    def raiser():  # valid when the trace is added (the library probes it once), fails when the figure is built
+        calls["n"] += 1
+        if calls["n"] > 1:
+            raise RuntimeError("user trace function failed")
+        return {"x": [0, 1], "y": [0, 1], "z": [0, 1]}
+
+    if fault == "trace_missing_coord":
+        bad.style.model3d.add_trace(backend="generic", constructor="Scatter3d", kwargs={"x": [0, 1], "y": [0, 1]}, show=True)
+    elif fault == "trace_bad_constructor":
+        bad.style.model3d.add_trace(backend="generic", constructor="NoSuchTrace", kwargs={"x": [0, 1], "y": [0, 1], "z": [0, 1]}, show=True)
+    elif fault == "trace_callable_raises":
+        bad.style.model3d.add_trace(backend="generic", constructor="Scatter3d", kwargs=raiser, show=True)
+    elif fault == "bad_backend":
+        kw["backend"] = "no-such-backend"
+    elif fault == "bad_style_kwarg":
+        kw["style_nonexistentproperty"] = 1
+    elif fault == "bad_animation_output":
+        kw.update(animation=True, animation_output="no-such-format")
+    elif fault == "bad_canvas":
+        kw["canvas"] = "not a canvas"
+    ids_before = [id(o._style) for o in objs]
+    before = snapshot_all(objs)
+    try:
+        with common.time_limit(120):
+            magpy.show(*objs, **kw)
+        outcome = "ok"
+    except Exception as e:
+        outcome = type(e).__name__
+    problems = []
+    after = snapshot_all(objs)
+    if after[0] != before[0]:
+        from mc.props import C08
+
+        problems.append(f"failed-show({outcome})-changed-objects:" + ",".join(C08.diff_snap(before[0], after[0])[:4]))
+    if [id(o._style) for o in objs] != ids_before:
+        problems.append(f"failed-show({outcome})-replaced-style-object")
+    if after[1] != before[1]:
+        problems.append(f"failed-show({outcome})-changed-global-defaults")
+    return problems, outcome
 
 
 def work(c):
     try:
+        if "fault" in c:
+            return run_fault(c)[0]
         return run_case(c)
     except Exception as e:
         import traceback
@@ -353,12 +435,20 @@ def enumerate_cases(tier):
                             continue
                         cases.append({"cls": cls, "path": pk, "frames": frames, "unit": unit, "nest": nest, "anim": False,
                                       "scaled": unit != "m"})
-        for anim in (True, 2, "kwargs"):
-            for pk in ("transl3", "rot4"):
+        for anim in (True, 2, "kwargs", "downsample"):
+            for pk in ("transl3", "rot4", "long11"):
                 for nest in ("bare", "coll"):
                     if tier == "quick" and (nest == "coll" and anim != True):  # noqa: E712
                         continue
+                    if pk == "long11" and anim not in ("downsample", "kwargs"):
+                        continue
                     cases.append({"cls": cls, "path": pk, "frames": "default", "unit": "m", "nest": nest, "anim": anim, "scaled": False})
+    for cls in CLASSES:
+        for fault in SHOW_FAULTS:
+            for pos in ((0, 1, 2) if fault.startswith("trace") else (0,)):
+                if tier == "quick" and pos == 2:
+                    continue
+                cases.append({"cls": cls, "fault": fault, "faulty_at": pos})
     return cases
 
 
@@ -372,17 +462,20 @@ def run(tier, seed):
                 harness.append(f"{c}: {p}")
                 continue
             kind = p.split(":")[0]
+            if "fault" in c:
+                viols.append({"key": f"C19|{c['cls']}|fault={c['fault']}|{kind}", "what": f"{c}: {p}", "case": c, "observed": p})
+                continue
             if kind.startswith("animation-frame-"):
                 kind = "animation-frame|" + p.split(":")[1]
             fr = "frames-list" if isinstance(c["frames"], list) else f"frames-{c['frames']}"
             viols.append({"key": f"C19|{c['cls']}|{c['path']}|{fr}|{'anim' if c['anim'] else 'static-fig'}|{kind}",
                           "what": f"{c}: {p}", "case": c, "observed": p})
     cov = {
-        "evaluations": len(cases), "distinct_nontrivial": sum(1 for c in cases if c["path"] != "static" or c["nest"] != "bare" or c["unit"] != "m"),
+        "evaluations": len(cases), "distinct_nontrivial": sum(1 for c in cases if "fault" in c or c["path"] != "static" or c["nest"] != "bare" or c["unit"] != "m"),
         "rule": "one evaluation = one show(..., backend='plotly', return_fig=True) call whose traces are mapped back to the objects; "
                 "cases are distinct (class, path kind, frames, unit, nesting, animation); non-trivial = a path, a parent or a non-metre unit",
         "samples": [cases[0], cases[len(cases) // 2], cases[-1]],
-        "exhaustive": True, "classes": CLASSES, "frames": [str(f) for f in FRAMES], "units": UNITS, "nesting": NEST,
+        "exhaustive": True, "show_faults": SHOW_FAULTS, "classes": CLASSES, "frames": [str(f) for f in FRAMES], "units": UNITS, "nesting": NEST,
     }
     return {"coverage": cov, "violations": viols, "harness_errors": harness[:5],
             "assumptions": ["plotly backend and its generic traces only (pyvista and rendered matplotlib figures are outside the enumeration)",
